@@ -28,6 +28,7 @@ EXHAUSTIVE = {
 NPINT_ARGS = True     # a quarter of the cases pass their integer arguments as NumPy integers (core.Ctx.begin)
 STRIDED_ARGS = True   # a quarter of the cases pass every array argument as a strided, non-contiguous view (core.Ctx.begin)
 SEQ_ARGS = True       # a quarter of the cases pass short integer arrays (mode lists, permutations) as plain lists / tuples (core.Ctx.begin)
+MUTSAN = "full"        # operand digests + result-vs-operand aliasing on every depth-0 call (pvm/mutsan.py)
 WATCHDOG = {"quick": 600, "thorough": 3000}
 PATTERNS = ["none", "one", "some", "all"]
 
